@@ -24,6 +24,8 @@ def run(tier):
     for cfgname in cfgs:
         prog = Program.load(which=('SRC',), cfg=cfgname)
         eff = PathEffects(prog)
+        from ..rules import spblas as _sb
+        _sb.conjugate_branch_rule(chk, 'C14.conj', prog, cfgname)
         from ..rules import kernels as _kc
         _kc.paired_cursor_rule(chk, 'C14.cursor', prog, ['sp_%strsv' % q for q in 'sdcz'], cfgname, floor=4)
         chk.clause('C14.trsv', 'R3 dispatch table of sp_?trsv (D1, D3)')
